@@ -94,6 +94,77 @@ def prop_reverse(case, stats):
                 M.close(b[:, p], a[:, p], TOL, 'adjoint of input %d: direction %d after changing only direction %d (inputs and seed) vs before' % (i, p, q), stats)
 
 
+def prop_poison(case, stats):
+    """leak amplifier: the coefficients of order >= k (k >= 1) of direction q of every input are NaN (or inf); the base points stay
+    finite, so every operation is still inside its domain for every direction.  Whatever the kernels do with direction q, the
+    registers of the other directions must stay what they were with finite data: a work array, accumulator or threshold shared
+    between directions turns a leak - even one that is multiplied by zero or cancels for finite data - into a NaN there."""
+    P, q, k = case['P'], case['q'], case['poison_from']
+    X = M.utpm_inputs(case)
+    regs = guard(M.run_direct, case, X)
+    datas = [M.reg_data(r) for r in regs]
+    Xn = [x.copy() for x in X]
+    for x in Xn:
+        x[k:, q] = case['poison']
+    try:
+        with np.errstate(all='ignore'):
+            rq = guard(M.run_direct, case, Xn)
+    except Violation as e:
+        # an exception because of non-finite data is loud, not a silent leak: not a C11 verdict
+        raise Rejected('raises with a non-finite direction: %s' % (str(e)[:120],))
+    for i, (a, b) in enumerate(zip(datas, rq)):
+        if a is None:
+            continue
+        b = M.reg_data(b)
+        if b is None or a.shape != b.shape:
+            raise Violation('register %d (%s): shape changed when direction %d became non-finite' % (i, M.opname(case, i), q))
+        for p in range(P):
+            if p == q:
+                continue
+            if not np.all(np.isfinite(a[:, p])):
+                continue
+            if not np.all(np.isfinite(b[:, p])):
+                raise Violation('register %d (%s): direction %d became non-finite after only the coefficients of order >= %d of direction %d '
+                                'of the inputs were made %r' % (i, M.opname(case, i), p, k, q, case['poison']))
+            M.close(b[:, p], a[:, p], TOL, 'register %d (%s): direction %d after making direction %d non-finite vs before'
+                    % (i, M.opname(case, i), p, q), stats)
+
+
+def prop_poison_reverse(case, stats):
+    """the same amplifier for the reverse sweep: direction q of the inputs (orders >= k) and of the output seed (all orders) is
+    non-finite; the input adjoints of the other directions must stay what they were"""
+    P, q, k = case['P'], case['q'], case['poison_from']
+    cg, fins, regs = guard(M.record_nd, case)
+    X = M.utpm_inputs(case)
+    xbar = M._guard_reverse(case, cg, fins, X, case['ybar'])
+    Xn = [x.copy() for x in X]
+    for x in Xn:
+        x[k:, q] = case['poison']
+    ybq = case['ybar'].copy()
+    ybq[:, q] = case['poison']
+    try:
+        with np.errstate(all='ignore'):
+            xq = M._guard_reverse(case, cg, fins, Xn, ybq)
+    except Violation as e:
+        raise Rejected('raises with a non-finite direction: %s' % (str(e)[:120],))
+    for i, (a, b) in enumerate(zip(xbar, xq)):
+        for p in range(P):
+            if p == q or not np.all(np.isfinite(a[:, p])):
+                continue
+            if not np.all(np.isfinite(b[:, p])):
+                raise Violation('adjoint of input %d: direction %d became non-finite after only direction %d of the inputs (orders >= %d) and '
+                                'of the seed was made %r' % (i, p, q, k, case['poison']))
+            M.close(b[:, p], a[:, p], TOL, 'adjoint of input %d: direction %d after making direction %d non-finite vs before' % (i, p, q), stats)
+
+
+@st.composite
+def poison_cases(draw, tier, **kw):
+    case = draw(M.meta_cases(tier, Pmin=2, Dmin=2, **kw))
+    case['poison_from'] = draw(st.integers(1, case['D'] - 1))
+    case['poison'] = draw(st.sampled_from([float('nan'), float('inf'), float('nan')]))
+    return case
+
+
 @st.composite
 def degenerate_cases(draw, tier, op):
     """structurally different base points per direction: some (not all) directions have a rank deficient base matrix (qr) or
@@ -141,6 +212,42 @@ def degenerate_cases(draw, tier, op):
     case['hi'] = [draw(gen.higher_coeffs((D - 1, P) + pts[0].shape[1:], gen.coeff_elements(1.0)))]
     case['althi'] = [draw(gen.float_array((D - 1,) + pts[0].shape[1:], gen.coeff_elements(1.0), sparse=False))]
     case['q'] = draw(st.integers(0, P - 1))
+    return case
+
+
+def prop_eigh1_direct(case, stats):
+    """UTPM.eigh1 / UTPM.pb_eigh1 called directly (the tracer reaches them only through eigh): the level-1 relaxed factors of
+    direction p and the adjoint the pullback returns for it are those of direction p alone"""
+    P = case['P']
+    X = M.utpm_inputs(case)[0]
+    X = 0.5 * (X + np.swapaxes(X, -1, -2))
+
+    def run(data, lbar, qbar):
+        A = UTPM(data.copy())
+        L, Q, b = UTPM.eigh1(A)
+        Abar = UTPM.pb_eigh1(UTPM(lbar.copy()), UTPM(qbar.copy()), None, A, L, Q, b)
+        return L.data, Q.data, Abar.data, b
+    L, Q, Abar, b = guard(run, X, case['lbar'], case['qbar'])
+    for p in range(P):
+        Lp, Qp, Ap, bp = guard(run, X[:, p:p + 1], case['lbar'][:, p:p + 1], case['qbar'][:, p:p + 1])
+        if not np.array_equal(np.asarray(b[p]), np.asarray(bp[0])):
+            raise Violation('eigh1: block structure of direction %d is %s with %d directions, %s alone' % (p, list(b[p]), P, list(bp[0])))
+        M.close(L[:, p], Lp[:, 0], TOL, 'eigh1: L, direction %d of %d vs alone' % (p, P), stats)
+        M.close(Q[:, p], Qp[:, 0], TOL, 'eigh1: Q, direction %d of %d vs alone' % (p, P), stats)
+        M.close(Abar[:, p], Ap[:, 0], 1e-10, 'pb_eigh1: adjoint, direction %d of %d vs alone' % (p, P), stats)
+
+
+@st.composite
+def eigh1_cases(draw, tier):
+    case = draw(degenerate_cases(tier, 'eigh_val'))
+    D, P = case['D'], case['P']
+    n = case['pts'][0].shape[-1]
+    lb = np.zeros((D, P, n, n))
+    dg = draw(gen.float_array((D, P, n), gen.nice_floats(-1.0, 1.0), sparse=False))
+    for i in range(n):
+        lb[:, :, i, i] = dg[:, :, i]
+    case['lbar'] = lb
+    case['qbar'] = draw(gen.float_array((D, P, n, n), gen.nice_floats(-1.0, 1.0), sparse=False))
     return case
 
 
@@ -207,6 +314,8 @@ def buckets(tier):
     for op in ('qr', 'eigh_val', 'eigh_fun'):      # (qr_full inverts R_0: no rank deficient support, it raises LinAlgError)
         bl.append(Bucket('fwd:degenerate:' + op, (lambda op=op: degenerate_cases(tier, op)), prop_forward,
                          {'quick': 60, 'thorough': 600}, nontrivial=(lambda case: True), classes=_deg_classes))
+    bl.append(Bucket('direct:eigh1+pb_eigh1', (lambda: eigh1_cases(tier)), prop_eigh1_direct, {'quick': 60, 'thorough': 600},
+                     nontrivial=(lambda case: True), classes=_deg_classes))
     for fam in ('solve', 'solvec', 'inv', 'lu', 'qr', 'eigh', 'chol', 'det', 'special', 'unp'):
         bl.append(Bucket('fwd:repeat:' + fam, (lambda fam=fam: repeat_cases(tier, first=fam, families=M.CHEAP_TAIL, max_len=2)), prop_forward,
                          {'quick': 30, 'thorough': 300}, nontrivial=(lambda case: bool(case.get('repeat'))),
@@ -219,6 +328,15 @@ def buckets(tier):
         bl.append(Bucket('fwd:scales:' + fam, (lambda fam=fam: scaled_cases(tier, fam)), prop_forward,
                          {'quick': 30, 'thorough': 300}, nontrivial=(lambda case: len(set(case['scales'][1:1 + case['P']])) > 1),
                          classes=_scale_classes))
+    for fam in M.FWD_SINGLE:
+        bl.append(Bucket('fwd:poison:' + fam, (lambda fam=fam: poison_cases(tier, first=fam, families=M.CHEAP_TAIL, max_len=2)), prop_poison,
+                         {'quick': 20, 'thorough': 250}, nontrivial=_distinct,
+                         classes=(lambda case: _classes(case) + ['poison-from-order=%d' % case['poison_from'], 'poison=%r' % case['poison'],
+                                                                 'poisoned-direction=%d/%d' % (case['q'], case['P'])])))
+    for fam in M.REV_SINGLE:
+        bl.append(Bucket('rev:poison:' + fam, (lambda fam=fam: poison_cases(tier, first=fam, families=M.CHEAP_TAIL, max_len=2, reverse_mode=True)),
+                         prop_poison_reverse, {'quick': 12, 'thorough': 150}, nontrivial=_distinct,
+                         classes=(lambda case: _classes(case) + ['poison-from-order=%d' % case['poison_from'], 'poison=%r' % case['poison']])))
     for fam in M.REV_SINGLE:
         bl.append(Bucket('rev:' + fam, (lambda fam=fam: M.meta_cases(tier, first=fam, families=M.CHEAP_TAIL, max_len=3, Pmin=2, reverse_mode=True)),
                          prop_reverse, {'quick': 25, 'thorough': 250}, nontrivial=_distinct, classes=_classes, weight=2.0))
